@@ -27,9 +27,9 @@ def handler (mode : String) (line : String) : String :=
                   match Spec01.check c ob with
                   | .ok =>
                       -- not part of the reference checker: report histories of the class the master theorem
-                      -- covers (no add-path, no LLGR period, no soft reset overtaking queued changes) on
+                      -- covers (with or without add-path; no LLGR period, no soft reset overtaking queued changes) on
                       -- which its computed hypothesis `okRun` nevertheless fails
-                      if c.sess.max = 1 && Conv.noLlgr (c.pre ++ c.ops) && ob.overtaken = 0 && !Conv.okRun c
+                      if Conv.noLlgr (c.pre ++ c.ops) && ob.overtaken = 0 && !Conv.okRun c
                       then "fail clause=theorem-hypothesis-not-met-by-model-run class=in-order"
                       else "ok"
                   | v => verdictStr v
